@@ -449,9 +449,9 @@ class History:
             self.run(c, *vals)
         self.observe("compose", i, go)
 
-    def op_config(self, i, prios):
+    def op_config(self, i, prios, mc=3):
         def go():
-            self.inst[i].config_from_dict({"nodes": {f"f{k}": {"priority": p} for k, p in prios.items()}, "max_concurrency": 3})
+            self.inst[i].config_from_dict({"nodes": {f"f{k}": {"priority": p} for k, p in prios.items()}, "max_concurrency": mc})
         self.observe("config", i, go)
 
     def apply(self, op):
